@@ -39,7 +39,7 @@ def labelSigs : List (Nat × Sig) := [
   (35, { params := [.triple .recovery], ret := (.optNS .enumEl) }),
   (36, { params := [.triple .loc, .triple (.list .ann), .triple .loc, .triple .loc, .triple (.opt .tok), .triple .loc, .triple .ty, .triple .loc, .triple .tok, .triple .loc, .triple .tok, .triple (.list .arg), .triple .tok, .triple .loc, .triple (.opt (.pair .loc .tok)), .triple .loc, .triple .loc, .triple .tok], ret := .method }),
   (37, { params := [.triple .loc, .triple .dir, .triple (.list .ann), .triple .ty, .triple .loc, .triple (.opt .tok), .triple .loc], ret := .arg }),
-  (38, { params := [.triple .loc, .triple (.opt .tok), .triple .loc], ret := .dir }),
+  (38, { params := [.triple .loc, .triple (.opt .dtok), .triple .loc], ret := .dir }),
   (39, { params := [.triple .loc, .triple (.list .ann), .triple .loc, .triple .tok, .triple .ty, .triple .loc, .triple .tok, .triple .loc, .triple .tok, .triple .str, .triple .loc, .triple .tok], ret := .const }),
   (40, { params := [.triple .loc, .triple (.list .ann), .triple .loc, .triple .ty, .triple .loc, .triple .tok, .triple .loc, .triple (.opt .str), .triple .loc, .triple .tok], ret := .field }),
   (41, { params := [.triple .loc, .triple (.list .ann), .triple .loc, .triple .loc, .triple .tok, .triple .loc, .triple (.opt .tok), .triple .loc], ret := .enumEl }),
@@ -118,8 +118,8 @@ theorem Tri.mono {α} {P Q : α → List Diag → Prop} {x : M α} {ds : List Di
   | error p => exact fun hh => hh
   | ok r => rintro ⟨h1, h2⟩; exact ⟨h1, h _ _ h1 h2⟩
 
-theorem Tri.bad {α} {P : α → List Diag → Prop} {ds : List Diag} (k : PanicKind) (m : String) (h1 : k ≠ .shape) (h2 : k ≠ .table) :
-    Tri env (bad k m : M α) ds P := ⟨h1, h2⟩
+theorem Tri.bad {α} {P : α → List Diag → Prop} {ds : List Diag} (k : PanicKind) (m : String) (h1 : k ≠ .shape) (h2 : k ≠ .table)
+    (h3 : k ≠ .lexical) : Tri env (bad k m : M α) ds P := ⟨h1, h2, h3⟩
 
 /-- the labels of the error-recovery actions: each of them reports an Error -/
 def recoveryLabels : List Nat := [24, 28, 32, 35]
@@ -186,7 +186,7 @@ theorem label_36 : LabelOk env 36 { params := [.triple .loc, .triple (.list .ann
   fun ds args h => Tri.mono (Tri.of_purE (tact_36 env _ args h)) (fun _ _ _ hh => ⟨hh, fun hc => absurd hc (by decide)⟩)
 theorem label_37 : LabelOk env 37 { params := [.triple .loc, .triple .dir, .triple (.list .ann), .triple .ty, .triple .loc, .triple (.opt .tok), .triple .loc], ret := .arg } :=
   fun ds args h => Tri.mono (Tri.of_pur (tact_37 env _ args h)) (fun _ _ _ hh => ⟨hh, fun hc => absurd hc (by decide)⟩)
-theorem label_38 : LabelOk env 38 { params := [.triple .loc, .triple (.opt .tok), .triple .loc], ret := .dir } :=
+theorem label_38 : LabelOk env 38 { params := [.triple .loc, .triple (.opt .dtok), .triple .loc], ret := .dir } :=
   fun ds args h => Tri.mono (Tri.of_pur (tact_38 env _ args h)) (fun _ _ _ hh => ⟨hh, fun hc => absurd hc (by decide)⟩)
 theorem label_39 : LabelOk env 39 { params := [.triple .loc, .triple (.list .ann), .triple .loc, .triple .tok, .triple .ty, .triple .loc, .triple .tok, .triple .loc, .triple .tok, .triple .str, .triple .loc, .triple .tok], ret := .const } :=
   fun ds args h => Tri.mono (Tri.of_pur (tact_39 env _ args h)) (fun _ _ _ hh => ⟨hh, fun hc => absurd hc (by decide)⟩)
